@@ -218,12 +218,48 @@ def st_signal(work):
                                            ("a slot invoked on the emitting thread", bool(r3))])
 
 
+def st_http(work):
+    from . import http_spec as H
+
+    class Keep:
+        runs = None
+    orig = C.validate_runs
+
+    def spy(spec, cfg, runs, w, tag, **kw):
+        Keep.runs = runs
+        return orig(spec, cfg, runs, w, tag, **kw)
+    C.validate_runs = spy
+    try:
+        acc, rej, info = H.campaign(random.Random(10), 6, work / "http")
+    finally:
+        C.validate_runs = orig
+    bad = copy.deepcopy(Keep.runs)
+    done = False
+    for r in bad:
+        for e in r:
+            if e["e"] == "Req" and e["body"]:
+                e["body"] = e["body"][:-1]                       # the collector got one byte less
+                done = True
+                break
+        if done:
+            break
+    _, r2 = orig("Trace_Http", "Trace_Http.cfg", bad, work / "http", "st_bad", chunk=40, timeout=600)
+    bad2 = copy.deepcopy(Keep.runs)
+    for r in bad2:
+        reqs = [i for i, e in enumerate(r) if e["e"] == "Req"]
+        if reqs:
+            r.insert(reqs[0], copy.deepcopy(r[reqs[0]]))          # one message posted twice
+            break
+    _, r3 = orig("Trace_Http", "Trace_Http.cfg", bad2, work / "http", "st_bad2", chunk=40, timeout=600)
+    return _verdict("QtlHttp", not rej, [("a request body one byte short", bool(r2)), ("one message posted twice", bool(r3))])
+
+
 def run(argv):
     work = C.BUILD / "work" / "selftest"
     work.mkdir(parents=True, exist_ok=True)
     ok = True
     try:
-        for fn in (st_sorted, st_pipeline, st_rotation, st_threads, st_pattern, st_json, st_config, st_signal):
+        for fn in (st_sorted, st_pipeline, st_rotation, st_threads, st_pattern, st_json, st_config, st_signal, st_http):
             ok = fn(work) and ok
     except C.ToolFailure as e:
         print("SELFTEST TOOL FAILURE:", e, file=sys.stderr)
